@@ -1,5 +1,184 @@
-import Comdex.Model.Accrual
-import Comdex.Model.LendRates
+import Comdex.Lemmas.LendRates
+/-!
+# C18 — accrual laws (part a: x/lend, pure 18-digit fixed point)
+-/
 namespace Comdex.C18
-theorem placeholder : True := trivial
+open Comdex Comdex.LendRates
+
+/-- **No division by zero** for admissible parameters: every rate function returns a value. -/
+theorem rates_defined (p : Params) (h : admissible p = true) (st : Bool) (u : Dec) :
+    (∃ r, borrowRate p st u = some r) ∧ ∃ l, lendRate p u = some l := by
+  refine ⟨⟨_, borrowRate_eq p h st u⟩, ?_⟩
+  unfold lendRate; rw [borrowRate_eq p h false u]; exact ⟨_, rfl⟩
+
+/-- utilisation lies in `[0, 1]` -/
+theorem utilisation_in_unit_interval (bal bor : Int) (hb : 0 ≤ bal) (hr : 0 ≤ bor) (u : Dec)
+    (h : utilisation bal bor = some u) : 0 ≤ u ∧ u ≤ Dec.one := by
+  unfold utilisation at h
+  split at h
+  · exact absurd h (by simp)
+  · split at h
+    · have : u = 0 := by injection h with h; exact h.symm
+      subst this; exact ⟨le_refl _, by decide⟩
+    · rename_i hne
+      have e : u = Dec.quo (Dec.ofInt bor) (Dec.ofInt bal + Dec.ofInt bor) := by injection h with h; exact h.symm
+      subst e
+      have b0 : 0 ≤ Dec.ofInt bal := Int.mul_nonneg hb (le_of_lt P_pos)
+      have r0 : 0 ≤ Dec.ofInt bor := Int.mul_nonneg hr (le_of_lt P_pos)
+      have pos : 0 < Dec.ofInt bal + Dec.ofInt bor := lt_of_le_of_ne (by linarith) (Ne.symm hne)
+      exact ⟨quo_nonneg' _ _ r0 pos, quo_le_one _ _ r0 (by linarith) pos⟩
+
+/-- **Borrow rates (variable and stable) are non-decreasing in utilisation.** -/
+theorem borrow_rate_mono_in_util (p : Params) (h : admissible p = true) (st : Bool) (u1 u2 r1 r2 : Dec)
+    (hu : 0 ≤ u1) (h12 : u1 ≤ u2) (e1 : borrowRate p st u1 = some r1) (e2 : borrowRate p st u2 = some r2) :
+    r1 ≤ r2 := by
+  obtain ⟨a, b, _, d, e⟩ := adm_of p h st
+  rw [borrowRate_eq p h st] at e1 e2
+  injection e1 with e1; injection e2 with e2
+  rw [← e1, ← e2]
+  exact kinkedVal_mono _ _ _ _ _ _ a b d e hu h12
+
+/-- **At zero utilisation the rate is the base rate.** -/
+theorem rate_at_zero_is_base (p : Params) (h : admissible p = true) (st : Bool) :
+    borrowRate p st 0 = some (p.baseOf st) := by
+  obtain ⟨a, _, _, d, _⟩ := adm_of p h st
+  rw [borrowRate_eq p h st, kinkedVal_zero _ _ _ _ a d]
+
+/-- **Continuity at the optimal-utilisation kink.** (i) at the kink the rate is `base + slope1`;
+(ii) the below-kink formula evaluated at the kink gives exactly the same value, i.e. the two branches agree;
+(iii) approaching from below, the rate never exceeds the kink value and falls short of it by at most
+`slope1·(uOpt−u)/uOpt + slope1·10⁻¹⁸ + 10⁻¹⁸` (all raw: `(gap−1)·uOpt·10¹⁸ ≤ slope1·(uOpt−u)·10¹⁸ + slope1·uOpt`).
+Above the kink the added term is `0` at `u = uOpt` by (i). -/
+theorem rate_continuous_at_kink (p : Params) (h : admissible p = true) (st : Bool) :
+    borrowRate p st p.uOpt = some (p.baseOf st + p.slope1Of st) ∧
+    belowKink (p.baseOf st) (p.slope1Of st) p.uOpt p.uOpt = p.baseOf st + p.slope1Of st ∧
+    ∀ u r, 0 ≤ u → u < p.uOpt → borrowRate p st u = some r →
+      0 ≤ p.baseOf st + p.slope1Of st - r ∧
+      (p.baseOf st + p.slope1Of st - r - 1) * p.uOpt * Dec.P
+        ≤ p.slope1Of st * (p.uOpt - u) * Dec.P + p.slope1Of st * p.uOpt := by
+  obtain ⟨a, b, _, d, e⟩ := adm_of p h st
+  refine ⟨?_, below_at_kink _ _ _ a d, ?_⟩
+  · rw [borrowRate_eq p h st, kinkedVal_at_kink _ _ _ _ b e]
+  · intro u r hu hlt er
+    rw [borrowRate_eq p h st] at er
+    injection er with er
+    have := kink_gap (p.baseOf st) (p.slope1Of st) (p.slope2Of st) p.uOpt u a b d e hu hlt
+    rw [kinkedVal_at_kink _ _ _ _ b e, er] at this
+    exact this
+
+/-- **The lend rate never exceeds the (variable) borrow rate**, and is not negative. -/
+theorem lend_rate_le_borrow_rate (p : Params) (h : admissible p = true) (u b l : Dec)
+    (hu : 0 ≤ u) (hu1 : u ≤ Dec.one) (eb : borrowRate p false u = some b) (el : lendRate p u = some l) :
+    0 ≤ l ∧ l ≤ b := by
+  obtain ⟨a1, a2, a3, a4, a5, _, _, _, a9, a10⟩ := (adm_iff p).mp h
+  have hb : b = kinkedVal p.base p.slope1 p.slope2 p.uOpt u := by
+    rw [borrowRate_eq p h false] at eb; injection eb with eb; exact eb.symm
+  have b0 : 0 ≤ b := by rw [hb]; exact kinkedVal_nonneg _ _ _ _ _ a1 a2 a3 a4 a5 hu
+  unfold lendRate at el; rw [eb] at el
+  have hl : l = Dec.mul (Dec.mul b u) (Dec.one - p.reserveFactor) := by injection el with el; exact el.symm
+  have k0 : 0 ≤ Dec.one - p.reserveFactor := by linarith
+  have k1 : Dec.one - p.reserveFactor ≤ Dec.one := by linarith
+  have m0 : 0 ≤ Dec.mul b u := mul_nonneg' _ _ b0 hu
+  have m1 : Dec.mul b u ≤ b := by
+    have := mul_mono_right b u Dec.one b0 hu hu1; rwa [mul_one' b b0] at this
+  have l1 : Dec.mul (Dec.mul b u) (Dec.one - p.reserveFactor) ≤ Dec.mul b u := by
+    have := mul_mono_right (Dec.mul b u) _ Dec.one m0 k0 k1; rwa [mul_one' _ m0] at this
+  rw [hl]; exact ⟨mul_nonneg' _ _ m0 k0, le_trans l1 m1⟩
+
+/-! ## accrual (lend rewards, variable borrow interest, reserve share: `indexInterest`; stable borrow: `stableInterest`) -/
+
+/-- what the three exported keeper functions return, in terms of `indexInterest` / `stableInterest` -/
+theorem accrual_functions (n : Int) (r rr gi rgi : Dec) (now prev : Int)
+    (ht : 0 ≤ elapsed now prev) (hg : gi ≠ 0) (hrg : rgi ≠ 0) :
+    lendReward n r gi now prev = .ok [indexInterest n r gi (elapsed now prev), indexNext r gi (elapsed now prev)] ∧
+    borrowInterest n r rr gi rgi now prev =
+      .ok [indexInterest n r gi (elapsed now prev), indexNext r gi (elapsed now prev),
+           indexInterest n rr rgi (elapsed now prev), indexNext rr rgi (elapsed now prev)] ∧
+    stableBorrowInterest n r now prev = .ok [stableInterest n r (elapsed now prev)] := by
+  have h1 : ¬ elapsed now prev < 0 := not_lt.mpr ht
+  simp [lendReward, borrowInterest, stableBorrowInterest, h1, hg, hrg]
+
+/-- **Never negative.** -/
+theorem reward_nonneg (n : Int) (r gi : Dec) (s : Int) (hn : 0 ≤ n) (hr : 0 ≤ r) (hg : 0 < gi) (hs : 0 ≤ s) :
+    0 ≤ indexInterest n r gi s ∧ 0 ≤ stableInterest n r s := by
+  constructor
+  · rw [indexInterest_eq n r gi s hn hr hg hs]
+    exact Int.mul_nonneg hn (by linarith [one_le_factor2 r gi s hr hg hs])
+  · rw [stableInterest_eq n r s hn hr hs]
+    exact crn_nonneg _ (Int.mul_nonneg (Int.mul_nonneg hn hr) (years_nonneg s hs))
+
+/-- **Zero when no time has elapsed.** -/
+theorem reward_zero_at_zero_time (n : Int) (r gi : Dec) (hn : 0 ≤ n) (hr : 0 ≤ r) (hg : 0 < gi) :
+    indexInterest n r gi 0 = 0 ∧ stableInterest n r 0 = 0 := by
+  constructor
+  · rw [indexInterest_eq n r gi 0 hn hr hg (le_refl _), factor2_zero r gi hr hg]; simp
+  · rw [stableInterest_eq n r 0 hn hr (le_refl _), years_zero]
+    simpa using crn_mul_P 0 (le_refl _)
+
+/-- **Never decreases when the elapsed time, the principal or the rate increases** (index-based accrual). -/
+theorem reward_mono (n n' : Int) (r r' gi : Dec) (s s' : Int)
+    (hn : 0 ≤ n) (hnn : n ≤ n') (hr : 0 ≤ r) (hrr : r ≤ r') (hg : 0 < gi) (hs : 0 ≤ s) (hss : s ≤ s') :
+    indexInterest n r gi s ≤ indexInterest n' r' gi s' := by
+  rw [indexInterest_eq n r gi s hn hr hg hs,
+      indexInterest_eq n' r' gi s' (le_trans hn hnn) (le_trans hr hrr) hg (le_trans hs hss)]
+  have f1 : factor2 r gi s ≤ factor2 r gi s' := factor2_mono_time r gi s s' hr hg hs hss
+  have f2 : factor2 r gi s' ≤ factor2 r' gi s' := factor2_mono_rate r r' gi s' hr hrr hg (le_trans hs hss)
+  have f0 : Dec.one ≤ factor2 r gi s := one_le_factor2 r gi s hr hg hs
+  calc n * (factor2 r gi s - Dec.one)
+      ≤ n' * (factor2 r gi s - Dec.one) := Int.mul_le_mul_of_nonneg_right hnn (by linarith)
+    _ ≤ n' * (factor2 r' gi s' - Dec.one) := Int.mul_le_mul_of_nonneg_left (by linarith) (le_trans hn hnn)
+
+/-- the same for the stable-rate accrual -/
+theorem stable_interest_mono (n n' : Int) (r r' : Dec) (s s' : Int)
+    (hn : 0 ≤ n) (hnn : n ≤ n') (hr : 0 ≤ r) (hrr : r ≤ r') (hs : 0 ≤ s) (hss : s ≤ s') :
+    stableInterest n r s ≤ stableInterest n' r' s' := by
+  rw [stableInterest_eq n r s hn hr hs,
+      stableInterest_eq n' r' s' (le_trans hn hnn) (le_trans hr hrr) (le_trans hs hss)]
+  have y0 := years_nonneg s hs
+  have y1 := years_mono s s' hs hss
+  have nr : n * r ≤ n' * r' := Int.mul_le_mul hnn hrr hr (le_trans hn hnn)
+  have nr0 : 0 ≤ n * r := Int.mul_nonneg hn hr
+  apply crn_mono _ _ (Int.mul_nonneg nr0 y0)
+  exact Int.mul_le_mul nr y1 y0 (le_trans nr0 nr)
+
+/-- **Two consecutive intervals never yield more than the combined interval, beyond rounding in the last
+stored decimal place.** Index-based accrual with any indices `≥ 1` (in the real flow the second interval
+starts from the index the first produced): the excess is at most `4·10⁻¹⁸` per unit of principal. -/
+theorem two_step_le_one_step_plus_rounding (n : Int) (r g1 g2 g12 : Dec) (s t : Int)
+    (hn : 0 ≤ n) (hr : 0 ≤ r) (h1 : Dec.one ≤ g1) (h2 : Dec.one ≤ g2) (h12 : Dec.one ≤ g12)
+    (hs : 0 ≤ s) (ht : 0 ≤ t) :
+    indexInterest n r g1 s + indexInterest n r g2 t ≤ indexInterest n r g12 (s + t) + 4 * n := by
+  have p1 := lt_of_lt_of_le P_pos h1
+  have p2 := lt_of_lt_of_le P_pos h2
+  have p12 := lt_of_lt_of_le P_pos h12
+  have hst : 0 ≤ s + t := by omega
+  rw [indexInterest_eq n r g1 s hn hr p1 hs, indexInterest_eq n r g2 t hn hr p2 ht,
+      indexInterest_eq n r g12 (s + t) hn hr p12 hst]
+  obtain ⟨_, u1⟩ := factor2_bounds r g1 s hr h1 hs
+  obtain ⟨_, u2⟩ := factor2_bounds r g2 t hr h2 ht
+  obtain ⟨l12, _⟩ := factor2_bounds r g12 (s + t) hr h12 hst
+  have e := eff_two_step r s t hr hs ht
+  have : (factor2 r g1 s - Dec.one) + (factor2 r g2 t - Dec.one) ≤ (factor2 r g12 (s + t) - Dec.one) + 4 := by
+    linarith
+  calc n * (factor2 r g1 s - Dec.one) + n * (factor2 r g2 t - Dec.one)
+      = n * ((factor2 r g1 s - Dec.one) + (factor2 r g2 t - Dec.one)) := by ring
+    _ ≤ n * ((factor2 r g12 (s + t) - Dec.one) + 4) := Int.mul_le_mul_of_nonneg_left this hn
+    _ = n * (factor2 r g12 (s + t) - Dec.one) + 4 * n := by ring
+
+/-- the same for the stable-rate accrual: at most one unit of the last stored decimal place -/
+theorem stable_two_step_le_one_step_plus_rounding (n : Int) (r : Dec) (s t : Int)
+    (hn : 0 ≤ n) (hr : 0 ≤ r) (hs : 0 ≤ s) (ht : 0 ≤ t) :
+    stableInterest n r s + stableInterest n r t ≤ stableInterest n r (s + t) + 1 := by
+  have hst : 0 ≤ s + t := by omega
+  rw [stableInterest_eq n r s hn hr hs, stableInterest_eq n r t hn hr ht, stableInterest_eq n r (s + t) hn hr hst]
+  have nr0 : 0 ≤ n * r := Int.mul_nonneg hn hr
+  have hy := (years_superadd s t hs ht).1
+  obtain ⟨a1, _⟩ := crn_spec _ (Int.mul_nonneg nr0 (years_nonneg s hs))
+  obtain ⟨b1, _⟩ := crn_spec _ (Int.mul_nonneg nr0 (years_nonneg t ht))
+  obtain ⟨_, c2⟩ := crn_spec _ (Int.mul_nonneg nr0 (years_nonneg (s + t) hst))
+  have hm : n * r * yearsDec s + n * r * yearsDec t ≤ n * r * yearsDec (s + t) := by
+    rw [← Int.mul_add]; exact Int.mul_le_mul_of_nonneg_left hy nr0
+  apply int_aux1
+  linarith
+
 end Comdex.C18
